@@ -665,16 +665,20 @@ def ev(e, env, focus=None):
     if k == 'gcmp':
         a, b = atomize(ev(e[2], env, focus)), atomize(ev(e[3], env, focus))
         err = None
+        found = False
         for x in a:
             for y in b:
                 try:
                     if general_pair(e[1], x, y):
-                        return [True]
+                        found = True
                 except ModelError as ex:
                     err = ex
+        if err is not None and found:
+            # a true pair and an incomparable pair: an implementation may return true or raise (XPath 2.3.4)
+            raise ModelError(*(list(err.codes) + ['UNSPECIFIED']))
         if err is not None:
             raise err
-        return [False]
+        return [found]
     if k == 'and':
         return [ebv(ev(e[1], env, focus)) and ebv(ev(e[2], env, focus))]
     if k == 'or':
